@@ -27,8 +27,12 @@ prop( 'C05', [ 'S-STATUS', 'D-VALIDATE', 'W-ATTR', 'T-ALLOWED' ],
       not_decided='that values read back equal the converted values written (value/history dependent).',
       technique='constant typestate on a statement CFG with exception edges; dominance / must-pass-through with correlated branches; service feasibility by test folding; table interval containment' )
 
-prop( 'C12', [ 'T-CLIENT-TYPES' ],
-      decides='T-CLIENT-TYPES: every client.CIP_TYPES row takes (tag_type, size) from the parser class of its own name and its '
+prop( 'C12', [ 'T-CLIENT-TYPES', 'P-BUNDLE', 'T-PATHSYNTAX', 'S-COMPLETE' ],
+      decides='P-BUNDLE: in connector.issue the keep-collecting condition conjoins the size test with equality of both route_path and '
+              'send_path with the bundle's, every yielded record carries ( index, sender_context ) of its wire request, sender_context is '
+              'always derived from index, and index advances at most once per operation and after every flushed bundle; T-PATHSYNTAX: every '
+              'delimiter format_path emits (@ / [ - ] . 0x) is recognised by parse_path/parse_path_elements/parse_path_component/parse_int; '
+              'S-COMPLETE: both harvesting drivers compare issued vs harvested counts before completing; T-CLIENT-TYPES: every client.CIP_TYPES row takes (tag_type, size) from the parser class of its own name and its '
               'integer validator accepts only values the class\'s struct format encodes.',
       not_decided='equality of result sequences across depth/bundling settings (dynamic).',
       technique='table extraction from AST + interval containment; guard-shape checks' )
@@ -161,3 +165,17 @@ prop( 'C09', [ 'R-LOCK-1', 'R-LOCK-2', 'R-LOCK-3', 'R-LOCK-4', 'R-LOCK-5', 'R-IS
       not_decided='linearizability, absence of lost updates between two writers of the same elements, fairness (properties of histories/schedules).',
       technique='lock-set style who-holds-what rules over call sites (AST + dominance); field-to-lock tables',
       thorough_rules=[] )
+
+prop( 'C13', [ 'S-COMPLETE', 'P-MATCH', 'P-DISCARD', 'P-ACT', 'P-GATEWAY' ],
+      decides='S-COMPLETE (sibling cross-check): every harvesting driver operate() can return (synchronous, pipeline) compares, after its '
+              'harvest loop, a counter fed by the issue stream with a counter fed by the harvested results and raises on a mismatch - so '
+              'the client can never silently return fewer results than operations; P-MATCH: in harvest every yield is dominated by an assert '
+              'that the reply\'s sender context equals the request\'s and reply.service == request.service | 0x80, requests and replies being '
+              'paired positionally by a lazy zip; P-DISCARD: collect ends the stream on timeout/EOF, enip_replies raises on non-zero '
+              'encapsulation / send / bundle status and on unrecognised responses; P-ACT: client.__next__ returns a response only when its '
+              'frame machine is terminal, discards its engine on any framing exception, raises StopIteration only between frames, and '
+              '__exit__ refuses a partial frame; P-GATEWAY: proxy.__exit__ discards the gateway on any exception without suppressing it, '
+              'close_gateway closes and clears it, open_gateway re-creates it under the lock, and every in-repo reification of a proxy I/O '
+              'generator is lexically inside `with <proxy>:` or a try whose handler closes the gateway.',
+      not_decided='behaviour at each byte offset of a cut - the rules show that every failure kind has a raising/terminating path, not what the kernel delivers.',
+      technique='sibling cross-check of drivers (counter feed analysis); dominance on the CFG; guard-shape matching; call-site protection (lexical with/try)' )
